@@ -172,7 +172,7 @@ func (t *table) insert(data []byte, isFollower bool, h hash.Hash32, offset wal.O
 // Skip informs the table of a new offset so that we can store it
 func (t *table) skip(offset wal.Offset, source int) {
 	vhook("rs.offer", t, offset, source, -1)
-	t.rowStore.insert(&insert{nil, nil, nil, offset, source})
+	t.rowStore.insert(&insert{nil, nil, nil, nil, offset, source})
 }
 
 func (t *table) doInsert(ts time.Time, dims bytemap.ByteMap, vals bytemap.ByteMap, offset wal.Offset, source int) bool {
@@ -257,13 +257,17 @@ func (t *table) doInsert(ts time.Time, dims bytemap.ByteMap, vals bytemap.ByteMa
 	t.db.capMemorySize(true)
 	inserted := len(additionalVals)
 	if hasMainValue {
+		// All values of one point go to the row store as a single insert so that
+		// they are applied together with the point's WAL offset. Otherwise a flush
+		// between them persists the offset with only some of the values, and a
+		// crash after that flush loses the rest.
+		moreVals := make([]encoding.TSParams, 0, len(additionalVals))
+		for _, subVals := range additionalVals {
+			moreVals = append(moreVals, encoding.NewTSParams(ts, subVals))
+		}
 		vhook("rs.offer", t, offset, source, 0)
-		t.rowStore.insert(&insert{key, encoding.NewTSParams(ts, mainVals), dims, offset, source})
+		t.rowStore.insert(&insert{key, encoding.NewTSParams(ts, mainVals), moreVals, dims, offset, source})
 		inserted++
-	}
-	for _, subVals := range additionalVals {
-		vhook("rs.offer", t, offset, source, 1)
-		t.rowStore.insert(&insert{key, encoding.NewTSParams(ts, subVals), dims, offset, source})
 	}
 	t.statsMutex.Lock()
 	t.stats.InsertedPoints += int64(inserted)
